@@ -36,6 +36,20 @@ func v2KeySchema(hash, rng string) []v2types.KeySchemaElement {
 	return ks
 }
 
+func v2Names(m map[string]string) map[string]string {
+	if m == nil {
+		return nil
+	}
+	out := map[string]string{}
+	for k, v := range m {
+		if v == NilName {
+			v = ""
+		}
+		out[k] = v
+	}
+	return out
+}
+
 func v2Throughput() *v2types.ProvisionedThroughput {
 	return &v2types.ProvisionedThroughput{ReadCapacityUnits: aws.Int64(5), WriteCapacityUnits: aws.Int64(5)}
 }
@@ -191,7 +205,7 @@ func (c *V2) Do(op Op) (out Outcome) {
 	switch op.Kind {
 	case OpPut:
 		in := &v2ddb.PutItemInput{TableName: aws.String(op.Table), Item: ItemToV2(op.Item), ConditionExpression: condExpr(op),
-			ExpressionAttributeNames: op.Names, ExpressionAttributeValues: ItemToV2(op.Values)}
+			ExpressionAttributeNames: v2Names(op.Names), ExpressionAttributeValues: ItemToV2(op.Values)}
 		in.ReturnConsumedCapacity = v2types.ReturnConsumedCapacity(op.RetCap)
 		if op.RetCCF {
 			in.ReturnValuesOnConditionCheckFailure = v2types.ReturnValuesOnConditionCheckFailureAllOld
@@ -208,7 +222,7 @@ func (c *V2) Do(op Op) (out Outcome) {
 		_, err := c.C.PutItem(ctx, in)
 		return fin(err)
 	case OpGet:
-		in := &v2ddb.GetItemInput{TableName: aws.String(op.Table), Key: ItemToV2(op.Key), ProjectionExpression: strpSet(op.Proj, op.ProjSet), ExpressionAttributeNames: op.Names}
+		in := &v2ddb.GetItemInput{TableName: aws.String(op.Table), Key: ItemToV2(op.Key), ProjectionExpression: strpSet(op.Proj, op.ProjSet), ExpressionAttributeNames: v2Names(op.Names)}
 		in.ReturnConsumedCapacity = v2types.ReturnConsumedCapacity(op.RetCap)
 		in.AttributesToGet = op.AttrsToGet
 		if op.Consistent {
@@ -228,7 +242,7 @@ func (c *V2) Do(op Op) (out Outcome) {
 		return o
 	case OpUpdate:
 		in := &v2ddb.UpdateItemInput{TableName: aws.String(op.Table), Key: ItemToV2(op.Key), UpdateExpression: updExpr(op),
-			ConditionExpression: condExpr(op), ExpressionAttributeNames: op.Names, ExpressionAttributeValues: ItemToV2(op.Values)}
+			ConditionExpression: condExpr(op), ExpressionAttributeNames: v2Names(op.Names), ExpressionAttributeValues: ItemToV2(op.Values)}
 		in.ReturnConsumedCapacity = v2types.ReturnConsumedCapacity(op.RetCap)
 		if op.RetCCF {
 			in.ReturnValuesOnConditionCheckFailure = v2types.ReturnValuesOnConditionCheckFailureAllOld
@@ -251,7 +265,7 @@ func (c *V2) Do(op Op) (out Outcome) {
 		return o
 	case OpDelete:
 		in := &v2ddb.DeleteItemInput{TableName: aws.String(op.Table), Key: ItemToV2(op.Key), ConditionExpression: condExpr(op),
-			ExpressionAttributeNames: op.Names, ExpressionAttributeValues: ItemToV2(op.Values)}
+			ExpressionAttributeNames: v2Names(op.Names), ExpressionAttributeValues: ItemToV2(op.Values)}
 		in.ReturnConsumedCapacity = v2types.ReturnConsumedCapacity(op.RetCap)
 		if op.RetOld {
 			in.ReturnValues = v2types.ReturnValueAllOld
@@ -280,7 +294,7 @@ func (c *V2) Do(op Op) (out Outcome) {
 		return o
 	case OpQuery:
 		in := &v2ddb.QueryInput{TableName: aws.String(op.Table), FilterExpression: strpSet(op.Filter, op.FilterSet), ProjectionExpression: strpSet(op.Proj, op.ProjSet),
-			ExpressionAttributeNames: op.Names, ExpressionAttributeValues: ItemToV2(op.Values), IndexName: strp(op.Index),
+			ExpressionAttributeNames: v2Names(op.Names), ExpressionAttributeValues: ItemToV2(op.Values), IndexName: strp(op.Index),
 			ExclusiveStartKey: ItemToV2(op.Start)}
 		in.ReturnConsumedCapacity = v2types.ReturnConsumedCapacity(op.RetCap)
 		if !op.NoKC {
@@ -332,7 +346,7 @@ func (c *V2) Do(op Op) (out Outcome) {
 		return o
 	case OpScan:
 		in := &v2ddb.ScanInput{TableName: aws.String(op.Table), FilterExpression: strpSet(op.Filter, op.FilterSet), ProjectionExpression: strpSet(op.Proj, op.ProjSet),
-			ExpressionAttributeNames: op.Names, ExpressionAttributeValues: ItemToV2(op.Values), IndexName: strp(op.Index),
+			ExpressionAttributeNames: v2Names(op.Names), ExpressionAttributeValues: ItemToV2(op.Values), IndexName: strp(op.Index),
 			ExclusiveStartKey: ItemToV2(op.Start)}
 		in.ReturnConsumedCapacity = v2types.ReturnConsumedCapacity(op.RetCap)
 		in.AttributesToGet = op.AttrsToGet
@@ -426,7 +440,7 @@ func (c *V2) Do(op Op) (out Outcome) {
 			}
 			ka.ProjectionExpression = strpSet(op.Proj, op.ProjSet)
 			if op.Proj != "" {
-				ka.ExpressionAttributeNames = op.Names
+				ka.ExpressionAttributeNames = v2Names(op.Names)
 			}
 			in.RequestItems[e.Table] = ka
 		}
